@@ -102,6 +102,18 @@ _MODEL = {
     "params_crates": ["flussab"],
 }
 
+_SPEC_INJECT = {
+    "overlay_extra": [("flussab/src/text.rs", "spec", "harness/flussab/text_spec.rs")],
+    "inject": [
+        ("flussab/src/text.rs", r"pub fn ascii_digits_multi<I>\([^)]*\)[^{]*\{\n\s*#!\[allow\(clippy::or_fun_call\)\]\n",
+         "    #[cfg(kani)]\n    if unsafe { verif_spec::USE_SPEC } {\n        return verif_spec::spec_digits(reader, offset);\n    }\n"),
+        ("flussab/src/text.rs", r"pub fn signed_ascii_digits_multi<I>\([^)]*\)[^{]*\{\n\s*#!\[allow\(clippy::or_fun_call\)\]\n",
+         "    #[cfg(kani)]\n    if unsafe { verif_spec::USE_SPEC } {\n        return verif_spec::spec_signed_digits(reader, offset);\n    }\n"),
+    ],
+    "append_text": [("flussab/src/lib.rs", "#[cfg(kani)]\npub use deferred_reader::{ModelState, Refill, N as MODEL_N};\n#[cfg(kani)]\npub fn verif_use_spec(on: bool) {\n    unsafe { text::verif_spec_flag(on) }\n}"),
+                    ("flussab/src/text.rs", "#[cfg(kani)]\npub unsafe fn verif_spec_flag(on: bool) {\n    verif_spec::USE_SPEC = on;\n}")],
+}
+
 def _types(fmt, types, **kw):
     return [(fmt % t, dict(kw, what=kw.get("what", "") + " [" + t + "]")) for t in types]
 
@@ -141,6 +153,55 @@ GROUPS["text_t0"] = dict(_MODEL, **{
             ("reach_text", {"props": ["C13", "C16", "C01"], "kind": "reach", "cost": 3, "what": "vacuity twin"}),
         ]
     ),
+})
+
+GROUPS["cnf_token_t0"] = dict(dict(_MODEL, **_SPEC_INJECT), **{
+    "name": "cnf_token_t0",
+    "package": "flussab-cnf",
+    "prefix": "token::verif_token::",
+    "overlay": [("flussab-cnf/src/token.rs", "token", "harness/cnf/token_t0.rs")],
+    "params": {"quick": {"N": 8}, "thorough": {"N": 10}},
+    "flags": ["-Z", "stubbing"],
+    "flags_tier": {"quick": ["--default-unwind", "10"], "thorough": ["--default-unwind", "12"]},
+    "timeout": {"quick": 1200, "thorough": 5400},
+    "harnesses": [
+        ("uint_u8", {"props": ["C06", "C07", "C05", "C04", "C09"], "cost": 4, "what": "cnf uint::<u8>: exact value, end-of-word, trailing blanks, overflow -> Err, look-ahead"}),
+        ("uint_usize", {"props": ["C06", "C07", "C09"], "cost": 5, "what": "cnf uint::<usize>"}),
+        ("uint_u64", {"props": ["C06"], "cost": 5, "tiers": T, "what": "cnf uint::<u64>"}),
+        ("int_i8", {"props": ["C06", "C07", "C05", "C04"], "cost": 5, "what": "cnf int::<i8>: sign, -0, leading zeros, exact overflow"}),
+        ("int_isize", {"props": ["C06", "C07", "C09", "C01"], "cost": 8, "what": "cnf int::<isize> (the literal scanner)"}),
+        ("uint_u8_real", {"props": ["C06", "C01"], "cost": 9, "tiers": T, "what": "cnf uint::<u8> over the REAL optimised scanner (no spec stub)"}),
+        ("uint_usize_real", {"props": ["C06", "C01"], "cost": 9, "tiers": T, "what": "cnf uint::<usize> over the real optimised scanner"}),
+        ("int_i8_real", {"props": ["C06", "C01"], "cost": 9, "tiers": T, "what": "cnf int::<i8> over the real optimised scanner"}),
+        ("int_isize_real", {"props": ["C06", "C01"], "cost": 9, "tiers": T, "what": "cnf int::<isize> over the real optimised scanner"}),
+        ("braced_uint_u8", {"props": ["C06", "C05"], "cost": 4, "what": "braced_uint::<u8>"}),
+        ("end_of_word", {"props": ["C07"], "cost": 1, "what": "is_end_of_word <=> blank, CR, LF or end of input"}),
+        ("word_any_pattern", {"props": ["C07", "C09"], "cost": 3, "what": "word(pattern): pattern + end of word, eats trailing blanks"}),
+        ("fixed_any_pattern", {"props": ["C07", "C09"], "cost": 2, "what": "fixed(pattern)"}),
+        ("comment_token", {"props": ["C07", "C08", "C04", "C09"], "cost": 3, "what": "comment: c...LF or c...EOF, then blanks; line accounting"}),
+        ("interactive_strict_comment_token", {"props": ["C07", "C08", "C09"], "cost": 3, "what": "solver-log comment line"}),
+        ("interactive_skip_line_token", {"props": ["C07", "C08", "C09"], "cost": 3, "what": "skip unknown line"}),
+        ("newline_token", {"props": ["C07", "C08"], "cost": 2, "what": "newline = LF | CRLF (then blanks), not a lone CR"}),
+        ("interactive_newline_token", {"props": ["C09", "C08", "C07"], "cost": 2, "what": "interactive_newline consumes the newline and requests nothing after it"}),
+        ("eof_token", {"props": ["C04", "C07"], "cost": 1, "what": "eof succeeds only at the end of a source that did not fail"}),
+        ("interactive_end_of_line_token", {"props": ["C09", "C04", "C07", "C08"], "cost": 2, "what": "interactive_end_of_line = newline | clean eof"}),
+        ("skip_whitespace_token", {"props": ["C07"], "cost": 1, "what": "skip_whitespace"}),
+        ("var_count_i8", {"props": ["C06", "C08", "C04", "C05"], "cost": 4, "what": "var_count::<i8>: accepted iff <= MAX_DIMACS; range error at the token, I/O error wins"}),
+        ("var_count_isize", {"props": ["C06"], "cost": 4, "what": "var_count::<isize>"}),
+        ("uint_count_u8", {"props": ["C06", "C08", "C05"], "cost": 4, "what": "uint_count::<u8>"}),
+        ("clause_group_limit", {"props": ["C06", "C08", "C05"], "cost": 4, "what": "clause_group(limit): accepted iff <= limit"}),
+        ("unexpected_total", {"props": ["C05", "C08", "C04"], "cost": 4, "what": "unexpected(): terminates, no panic, location = cursor, I/O error wins"}),
+        ("reach_cnf_token", {"kind": "reach", "cost": 4, "what": "vacuity twin"}),
+    ],
+})
+
+GROUPS["cnf_token_small"] = dict(GROUPS["cnf_token_t0"], **{
+    "name": "cnf_token_small",
+    "params": {"quick": {"N": 5}, "thorough": {"N": 7}},
+    "flags_tier": {"quick": ["--default-unwind", "7"], "thorough": ["--default-unwind", "9"]},
+    "harnesses": [
+        ("non_terminating_linebreaks_real", {"props": ["C07", "C08"], "cost": 8, "what": "newline then any mix of comment lines, blank lines, blanks (real comment/newline underneath), smaller window"}),
+    ],
 })
 
 PROPERTIES["C13"] = {
@@ -201,6 +262,30 @@ PROPERTIES["C14"] = {
     "bounds_note": "as C02",
     "outside": ["unwinding through foreign frames", "sanitizer runs"],
     "assumptions": ["as C02"],
+}
+
+PROPERTIES["C07"] = {
+    "level": "other",
+    "groups": ["cnf_token_t0", "cnf_token_small", "text_t0"],
+    "claim": "Layout independence is decided as a set of token-level lemmas, each a SAT-based bounded model check of the real tokenizer function on a fully symbolic window: every token consumes itself plus the maximal run of blanks, its value ignores leading zeros and '-0', newline = LF|CRLF, comments and blank lines are skipped as units, end of word = blank/CR/LF/end. The step from the lemmas to whole documents is a paper induction over the token sequence (parsers are sequential and only see the input through these functions).",
+    "level_note": "Window N bytes per token; document-level composition is by induction, not by a solver run (whole-parser symbolic execution is out of reach, DESIGN.md section 1). Statement loops of the parsers are covered by the T2 harnesses where present.",
+    "functions": ["flussab_cnf::token::{is_end_of_word, word, fixed, uint, int, braced_uint, comment, interactive_strict_comment, interactive_skip_line, newline, interactive_newline, eof, interactive_end_of_line, skip_whitespace, non_terminating_linebreaks}", "flussab::text::{tabs_or_spaces, newline}"],
+    "explanation": "Each lemma harness compares the real function with a reference walk over the same window (value, bytes consumed, line accounting) for every content, buffered amount and refill schedule.",
+    "bounds_note": "N-byte window per token",
+    "outside": ["document-level induction (paper)", "tokens longer than N bytes"],
+    "assumptions": ["reader model R over-approximates the real reader (C02)"],
+}
+
+PROPERTIES["C06"] = {
+    "level": "model_checking",
+    "groups": ["cnf_token_t0", "text_t0"],
+    "claim": "SAT-based bounded model checking of the real number/limit tokenizers on a fully symbolic window against an independent wide-arithmetic reference: a token is accepted iff it is a representable number word within the stated limit, and the returned number equals the decimal number written; T1/T2 harnesses (where present) decide clause-count gating and limit installation from symbolic parser states.",
+    "level_note": "Token-level (window N bytes). The optimised digit scanners are replaced by their specification in the quick tier (justified by C13, which proves the real scanners meet it) and run for real in the thorough tier. Message formatting and UTF-8 validation of message text are stubbed (outside the claim).",
+    "functions": ["flussab_cnf::token::{uint, int, braced_uint, var_count, uint_count, clause_group}", "flussab::text::{ascii_digits, signed_ascii_digits}"],
+    "explanation": "Each harness runs the real token function and compares acceptance, value and consumed bytes with a reference reading of the same window in u128 arithmetic; limits are symbolic.",
+    "bounds_note": "N-byte window",
+    "outside": ["error message text", "numbers longer than N bytes at token level (full-width overflow is C13's continuation harnesses)"],
+    "assumptions": ["reader model R over-approximates the real reader (C02)", "digit-scanner specification (C13)"],
 }
 
 NOT_APPLICABLE = {
